@@ -1,6 +1,6 @@
 import FlytModel.Generated.IR
 import FlytModel.Expected.IR
-/-! The translation of `NewWorkerPool` from the CURRENT source is, term for term, the IR the refinement theorems are about. -/
+/-! The translation of `NewWorkerPool` from the CURRENT source is, term for term, the expected IR. -/
 namespace Flyt.Tie
 theorem NewWorkerPool : Flyt.Generated.IR.NewWorkerPool = Flyt.Expected.IR.NewWorkerPool := rfl
 end Flyt.Tie
